@@ -147,7 +147,11 @@ func writeOverlay(buildDir string, id string, fps []string) (overlay, modfile st
 			missing = append(missing, name+": bad description")
 			continue
 		}
-		src, err := os.ReadFile(filepath.Join(repoDir, fp.File))
+		srcPath := filepath.Join(repoDir, fp.File)
+		if o, ok := overlayFiles[fp.File]; ok {
+			srcPath = o // failpoint goes on top of a --overlay-file replacement
+		}
+		src, err := os.ReadFile(srcPath)
 		if err != nil {
 			missing = append(missing, name+": source missing")
 			continue
